@@ -273,7 +273,47 @@ func (d *Driver) regMsg() (M, int64) {
 	return M{"t": "BBuy", "owner": owner, "id": int64(id), "n": n}, int64(p.FeePurchaseStorage) * n
 }
 
+// bulkBuyTx: one transaction buying storage for SEVERAL registrations of one module at once (each amount within,
+// at or beyond what can still be bought), paying the exact total - the shape that exercises per-transaction
+// bookkeeping of the ante decorators (sums per registration, limits per registration).
+func (d *Driver) bulkBuyTx() M {
+	w := d.w()
+	ctx := w.Ctx()
+	var msgs []interface{}
+	total := int64(0)
+	owner := d.anyAcct()
+	if d.chance(0.5) {
+		k := w.App.WrkchainKeeper
+		p := k.GetParams(ctx)
+		next, _ := k.GetHighestWrkChainID(ctx)
+		for id := w.Gen.Wrk.StartID; id < next && len(msgs) < 6; id++ {
+			n := int64(d.rint(1, 4))
+			msgs = append(msgs, M{"t": "WBuy", "owner": owner, "id": int64(id), "n": n})
+			total += int64(p.FeePurchaseStorage) * n
+		}
+	} else {
+		k := w.App.BeaconKeeper
+		p := k.GetParams(ctx)
+		next, _ := k.GetHighestBeaconID(ctx)
+		for id := w.Gen.Bcn.StartID; id < next && len(msgs) < 6; id++ {
+			n := int64(d.rint(1, 4))
+			msgs = append(msgs, M{"t": "BBuy", "owner": owner, "id": int64(id), "n": n})
+			total += int64(p.FeePurchaseStorage) * n
+		}
+	}
+	if len(msgs) < 2 {
+		return d.regTx()
+	}
+	d.Rng.Shuffle(len(msgs), func(i, j int) { msgs[i], msgs[j] = msgs[j], msgs[i] })
+	return M{"a": "DeliverTx", "msgs": msgs, "fee": M{"nund": total}}
+}
+
 func (d *Driver) regTx() M {
+	if d.Profile != "bulk" && d.chance(0.06) {
+		if ev := d.bulkBuyTx(); ev != nil {
+			return ev
+		}
+	}
 	nm := 1
 	if d.chance(0.2) {
 		nm = d.rint(2, 3)
@@ -409,6 +449,8 @@ func (d *Driver) nextTx() M {
 		gens = []gen{{6, ent}, {1, d.govTx}, {2, d.regTx}, {0.5, send}}
 	case "reg":
 		gens = []gen{{1, ent}, {0.6, d.govTx}, {7, d.regTx}, {0.3, send}}
+	case "bulk":
+		gens = []gen{{4, d.regTx}, {4, d.bulkBuyTx}, {0.4, d.govTx}}
 	case "str":
 		gens = []gen{{7, str}, {0.6, d.govTx}, {0.5, send}}
 	default:
